@@ -186,6 +186,8 @@ func (E *Engine) encodeOnce(key string, preset map[string]string, presetTypes []
 			// the ghost result has the callee's result type even if no call site matches
 			if cf := E.L.Funcs[cs.Callee]; cf != nil && cf.Signature.Results().Len() == 1 {
 				f.ghostRetTypes[k] = cf.Signature.Results().At(0).Type()
+			} else if rt := E.libResultType(cs.Callee); rt != nil {
+				f.ghostRetTypes[k] = rt
 			} else {
 				cfail("calls ... as %s: callee %s not found or not single-valued", cs.As, cs.Callee)
 			}
@@ -975,4 +977,42 @@ func (f *frame) fieldCoverObligations() {
 		f.oblige("frame.fieldcover", parts[0], cond, t, token.NoPos)
 		f.curPC = save
 	}
+}
+
+// libResultType: result type of a library function or method named as in the library
+// models ("pkg.Func", "pkg.(pkg.Recv).Method"), when it has exactly one result.
+func (E *Engine) libResultType(key string) types.Type {
+	for _, p := range E.L.Prog.AllPackages() {
+		path := p.Pkg.Path()
+		if !strings.HasPrefix(key, path+".") {
+			continue
+		}
+		rest := key[len(path)+1:]
+		var sig *types.Signature
+		if strings.HasPrefix(rest, "(") {
+			i := strings.Index(rest, ").")
+			if i < 0 {
+				continue
+			}
+			recv, meth := rest[1:i], rest[i+2:]
+			recv = strings.TrimPrefix(recv, "*")
+			if j := strings.LastIndex(recv, "."); j >= 0 {
+				recv = recv[j+1:]
+			}
+			tn, _ := p.Pkg.Scope().Lookup(recv).(*types.TypeName)
+			if tn == nil {
+				continue
+			}
+			obj, _, _ := types.LookupFieldOrMethod(types.NewPointer(tn.Type()), true, p.Pkg, meth)
+			if fn, ok := obj.(*types.Func); ok {
+				sig = fn.Type().(*types.Signature)
+			}
+		} else if fn, ok := p.Pkg.Scope().Lookup(rest).(*types.Func); ok {
+			sig = fn.Type().(*types.Signature)
+		}
+		if sig != nil && sig.Results().Len() == 1 {
+			return sig.Results().At(0).Type()
+		}
+	}
+	return nil
 }
